@@ -47,7 +47,7 @@ Proof. vm_compute. reflexivity. Qed.
 (* unsafe code lives in these files only (C11) *)
 Definition allowed_unsafe : list (string * Z) :=
   [("src/any/difficulty/mod.rs", 1%Z); ("src/any/difficulty/skills.rs", 1%Z);
-   ("src/model/beatmap/decode.rs", 1%Z); ("src/osu/difficulty/gradual.rs", 1%Z);
+   ("src/model/beatmap/decode.rs", 1%Z); ("src/osu/difficulty/gradual.rs", 5%Z);  (* transmute + NonNull owner: 2 unsafe impl, as_mut, Box::from_raw (fix 4077c30) *)
    ("src/osu/difficulty/skills/strain.rs", 1%Z); ("src/taiko/difficulty/gradual.rs", 1%Z);
    ("src/util/strains_vec.rs", 12%Z)].
 Definition unsafe_covered (sites : list (string * Z)) : bool :=
